@@ -172,7 +172,9 @@ def def_lines(spec, n):
             aliases.append("%s = %s" % (ref, tname))
         else:
             ref = tname
-        if t["kind"] == "u" or form == "dead":
+        if form == "live":
+            out.append("    r += int(%s(x + 0.5))" % ref)
+        elif t["kind"] == "u" or form == "dead":
             out.append("    r += 0 if x > -5 else %s" % ref)
         elif t["kind"] == "v":
             out.append("    r += _num(%s)" % ref)
@@ -502,6 +504,14 @@ for k, ed in enumerate(cfg["editions"]):
                 importlib.reload(mods[mod])
         for mod, name, value in ed.get("setattrs", []):
             setattr(mods[mod], name, value)
+        for si, (mod, src) in enumerate(ed.get("snippets", [])):
+            # a new definition executed on its own in the module's namespace (nothing else is re-executed)
+            import linecache
+            fname = os.path.join(cfg["root"], "snippet_%d_%d.py" % (k, si))
+            with open(fname, "w") as f:
+                f.write(src)
+            linecache.checkcache(fname)
+            exec(compile(src, fname, "exec"), mods[mod].__dict__)
     res = {"versions": {}, "calls": []}
     for name in ed.get("version_order", []):
         try:
